@@ -124,6 +124,29 @@ func runC09(c *Ctx) {
 	if nRot == 0 {
 		r.Und("C09.rotate", "Process:rotate-payload", p.Pos(proc.Pos()), "no path asserts the payload to RotateWrapper")
 	}
+	// ... and the converse: no event is forwarded on a path that did not first rule out a rotation
+	// payload (an early "nothing to filter" return before the test forwards the key material)
+	okFirst := true
+	for _, pa := range paths {
+		rv := pa.RetVals()
+		if rv == nil || isNilConst(rv[0]) {
+			continue
+		}
+		if nilP, f := hasAtom(pa, func(at Atom) bool {
+			return at.Op == "eq" && at.L.Is("Field", "Payload") && at.L.Args[0].IsParam("2:e") && at.R.Is("Const", "nil")
+		}); f && nilP {
+			continue // a nil payload is no rotation payload
+		}
+		if _, found := hasAtom(pa, func(at Atom) bool {
+			return at.Op == "true" && at.L.Op == "Extract" && at.L.Name == "1" && at.L.Args[0].Is("Assert", "encrypt.RotateWrapper")
+		}); !found && okFirst {
+			okFirst = false
+			r.Bad("C09.rotate", "Process:forward-before-rotation-test", p.InstrPos(pa.End), "an event is forwarded on a path that never tested whether its payload is a rotation payload: with every operation overridden to none a key-rotation payload (wrapper included) travels down the pipeline and the rotation is not applied ("+p.PathSummary(pa)+")")
+		}
+	}
+	if okFirst {
+		r.Ok("C09.rotate", "Process:forward-before-rotation-test", p.Pos(proc.Pos()), "every forwarding return comes after the rotation-payload test")
+	}
 
 	c.ruleClassifySource()
 	c.ruleTagPair()
@@ -133,6 +156,8 @@ func runC09(c *Ctx) {
 	c.ruleHandlers()
 	c.ruleSkip()
 	c.ruleMarkFiltered()
+	c.ruleIgnoreIdentity()
+	c.ruleOptionAliasing()
 	c.ruleSettable()
 
 	// processUnfiltered runs before every successful return of a filtered copy
@@ -204,6 +229,9 @@ func runC09(c *Ctx) {
 				plainMap = true
 			}
 		}
+	}
+	if ff := c.Fn("C09.handlers", PkgEncrypt, "Filter", "filterField"); ff != nil {
+		c.ruleTaggableMapTracked(ff, "filterField:taggable-map-field-tracked")
 	}
 	r.Check(plainMap, "C09.handlers", "Process:plain-map-payload", p.Pos(proc.Pos()), "a payload that is a map and not Taggable is tracked for the final sweep", "no successful path of Process establishes 'payload is a map, not Taggable' and tracks it: an untagged map payload (map[string]interface{}, map[string]string) would be forwarded with every value in plaintext")
 	r.Check(nOK > 0, "C09.handlers", "Process:sweep-before-return", p.Pos(proc.Pos()), "every successful return of a filtered copy is preceded by processUnfiltered (or the IgnoreTypes shortcut)", "no successful filtered return found")
@@ -1080,6 +1108,28 @@ func runC10(c *Ctx) {
 			r.Bad("C10.guards", "Process:copy-guards", p.InstrPos(cp), "the deep copy (and the filtering after it) is reached on a path that did not exclude: "+strings.Join(missing, ", ")+" — such an event must be forwarded unchanged")
 		}
 	}
+	// the converse for failures: apart from the missing-event error, Process fails only after it
+	// excluded a nil and a zero payload (those are forwarded unchanged whatever the configuration)
+	okErrOrder := true
+	for _, pa := range c.enum("C10.guards", proc, PathOpts{}) {
+		rv := pa.RetVals()
+		if rv == nil || isNilConst(rv[1]) {
+			continue
+		}
+		if nilE, f := hasAtom(pa, func(at Atom) bool { return at.Op == "eq" && at.L.IsParam("2:e") && at.R.Is("Const", "nil") }); f && nilE {
+			continue
+		}
+		zero, f2 := hasAtom(pa, func(at Atom) bool {
+			return at.Op == "true" && at.L.Is("Call", "(reflect.Value).IsZero") && at.L.Args[0].Is("Call", "reflect.ValueOf") && at.L.Args[0].Args[0].Is("Field", "Payload")
+		})
+		if (!f2 || zero) && okErrOrder {
+			okErrOrder = false
+			r.Bad("C10.guards", "Process:error-before-zero-test", p.InstrPos(pa.End), "Process can fail on a path that did not exclude a zero payload: a zero payload must be forwarded unchanged, but here it is rejected (for example for a missing wrapper) ("+p.PathSummary(pa)+")")
+		}
+	}
+	if okErrOrder {
+		r.Ok("C10.guards", "Process:error-before-zero-test", p.Pos(proc.Pos()), "every failure other than a missing event comes after the zero-payload test")
+	}
 	r.Check(nCopyPaths > 0, "C10.guards", "Process:copy-guards", p.InstrPos(cp), fmt.Sprintf("%d paths reach the copy, each after excluding a nil and a zero payload", nCopyPaths), "no path reaches the deep copy")
 	// the nothing-to-filter flag: an If on a boolean phi whose only true source is guarded by `operation != none`
 	okFlag := false
@@ -1185,6 +1235,7 @@ func runC10(c *Ctx) {
 	c.ruleMutationSinks()
 	c.ruleNoResweep()
 	c.rulePointerValues()
+	c.ruleExactLeafTypes()
 
 	// --- C10.none
 	nProc := 0
